@@ -517,6 +517,86 @@ impl Prop for C08 {
                 }
             }
         }
+        // File edges: every run of <= 3 leading lines over {empty, " ", "\t", "  \t"} before the first token /
+        // comment / inner attribute, and trailing runs after the last one, with and without a final terminator.
+        let progs = [
+            "fn f() {}",
+            "// note\nfn f() {}",
+            "/* c */\nfn f() {}",
+            "//! doc\nfn f() {}",
+            "#![allow(x)]\nfn f() {}",
+            "/// outer doc\nfn f() {}",
+            "fn f() {}\n// tail note",
+            "fn f() {}\n/* tail */",
+            "use b;\nuse a;",
+            "#[rustfmt::skip]\nfn  f ( ) { }",
+        ];
+        let line_alpha = ["", " ", "\t", "  \t"];
+        let mut heads: Vec<String> = vec![String::new()];
+        let mut frontier: Vec<String> = vec![String::new()];
+        for _ in 0..3 {
+            let mut next = vec![];
+            for h in &frontier {
+                for l in line_alpha {
+                    next.push(format!("{h}{l}\n"));
+                }
+            }
+            heads.extend(next.iter().cloned());
+            frontier = next;
+        }
+        let mut tails: Vec<String> = vec![];
+        for t in &heads {
+            // the program's last line is terminated by the first '\n' of the tail; plus an unterminated variant
+            tails.push(format!("\n{t}"));
+            tails.push(format!("\n{t} "));
+        }
+        tails.push(String::new());
+        let edge_cfgs: Vec<Vec<(&str, String)>> = vec![
+            vec![],
+            vec![("newline_style", "Unix".into())],
+            vec![("newline_style", "Windows".into())],
+            vec![("blank_lines_upper_bound", "0".into())],
+            vec![("blank_lines_upper_bound", "3".into()), ("blank_lines_lower_bound", "3".into())],
+            vec![("hard_tabs", "true".into())],
+        ];
+        for (pi, p) in progs.iter().enumerate() {
+            let mut texts: Vec<(String, String)> = vec![];
+            for (hi, h) in heads.iter().enumerate() {
+                texts.push((format!("h{hi}"), format!("{h}{p}\n")));
+            }
+            for (ti, t) in tails.iter().enumerate() {
+                texts.push((format!("t{ti}"), format!("{p}{t}")));
+            }
+            // both edges at once for the shorter runs
+            for (hi, h) in heads.iter().enumerate().take(21) {
+                for (ti, t) in tails.iter().enumerate().take(10) {
+                    texts.push((format!("h{hi}t{ti}"), format!("{h}{p}{t}")));
+                }
+            }
+            for (name, text) in texts {
+                for term in [Term::Lf, Term::Crlf, Term::LfThenCrlf, Term::CrlfThenLf] {
+                    for (ci, kv) in edge_cfgs.iter().enumerate() {
+                        let has_ns = kv.iter().any(|(k, _)| *k == "newline_style");
+                        if term != Term::Lf && !has_ns {
+                            continue; // Auto x CRLF: known finding, represented above
+                        }
+                        if !thorough && term != Term::Lf && term != Term::Crlf {
+                            continue;
+                        }
+                        let mut cfg = Cfg::new(2024);
+                        for (k, v) in kv {
+                            cfg = cfg.with(k, v);
+                        }
+                        units.push(Unit {
+                            key: format!("edge/p{pi}/{name}/{term:?}/c{ci}"),
+                            text: apply_term(&text, term),
+                            cfg,
+                            extra: json!({"kind": "Edge", "ctx": "file"}),
+                        });
+                    }
+                }
+            }
+        }
         units
     }
     fn check(&self, u: &Unit, tier: Tier, sink: &mut Sink) {
@@ -540,7 +620,7 @@ impl Prop for C08 {
         let mut prev: Option<String> = None;
         // widths: the discipline is checked at every width for the default-ish
         // configurations; bounds/newline matrices at every 4th width in quick
-        let all = widths_for(&u.cfg, tier);
+        let all: Vec<usize> = if u.key.starts_with("edge/") { vec![100, 20] } else { widths_for(&u.cfg, tier) };
         let quick_sparse = tier == Tier::Quick && !u.cfg.kv.is_empty() && !u.cfg.kv.iter().any(|(k, _)| k == "hard_tabs");
         for w in all {
             if quick_sparse && w % 4 != 0 {
